@@ -93,4 +93,20 @@ theorem C17_unsupported_src (fmt : F → List Char) (g : Geom F) (hs : supported
     Gen.encode fmt g = .error .unsupported := by
   rw [C17_tie_encode]; exact C17_unsupported fmt g hs
 
+/-- `UnsupportedGeometryError.Error()` as regenerated from wkt.go is the model's message -/
+theorem tie_errorText (t : String) : Gen.errorText t = errorText t := rfl
+
+/-- **C17_unsupported_error_src**: what the caller gets for a type outside the five — no bytes (the
+regenerated `Encode` returns the error value), an `UnsupportedGeometryError` whose `Type` is the dynamic
+type of the argument, and the message of the regenerated `Error()` names that type. -/
+theorem C17_unsupported_error_src (fmt : F → List Char) (g : Geom F) (hs : supported g = false) :
+    Gen.encode fmt g = .error .unsupported ∧ encodeErrType g = some (goTypeName g) ∧
+    Gen.errorText (goTypeName g) = "wkt: unsupported geometry type: " ++ goTypeName g := by
+  refine ⟨C17_unsupported_src fmt g hs, ?_, rfl⟩
+  cases g <;> first | rfl | (simp [supported] at hs)
+
+/-- and on the five supported types no error is reported -/
+theorem C17_supported_no_error (g : Geom F) (hs : supported g = true) : encodeErrType g = none := by
+  cases g <;> first | rfl | (simp [supported] at hs)
+
 end GeomV.C17
